@@ -281,6 +281,11 @@ func NewEvents() *Events { return &Events{Compactions: map[string]int{}} }
 func (e *Events) Listener() *pebble.EventListener {
 	return &pebble.EventListener{
 		BackgroundError: func(err error) {
+			// A compaction cancelled by a concurrent excise/ingest is retried and
+			// reported for information only (pebble.ErrCancelledCompaction).
+			if errors.Is(err, pebble.ErrCancelledCompaction) {
+				return
+			}
 			e.mu.Lock()
 			e.BGErrors = append(e.BGErrors, err.Error())
 			e.mu.Unlock()
@@ -670,6 +675,15 @@ func realPos(it *pebble.Iterator) Pos {
 			p.Value = "<value error: " + err.Error() + ">"
 		} else {
 			p.Value = string(v)
+			// the lazy value and Value() must agree with ValueAndErr (C44)
+			lv := it.LazyValue()
+			if v2, _, err2 := lv.Value(nil); err2 != nil {
+				p.Value = "<lazy value error: " + err2.Error() + ">"
+			} else if string(v2) != p.Value {
+				p.Value = fmt.Sprintf("<LazyValue().Value() %s differs from ValueAndErr() %s>", fmtVal(v2), fmtVal(v))
+			} else if v3 := it.Value(); string(v3) != p.Value {
+				p.Value = fmt.Sprintf("<Value() %s differs from ValueAndErr() %s>", fmtVal(v3), fmtVal(v))
+			}
 		}
 	}
 	if hr {
@@ -1149,11 +1163,57 @@ func (r *Runner) Step(i int) error {
 	if err != nil {
 		return fmt.Errorf("step %d %s: %v", i, s.String(), err)
 	}
+	if r.Plan.Opt.CheckLevels && r.DB != nil {
+		switch s.K {
+		case "flush", "compact", "wait", "ingest", "ingestexcise", "excise", "restart":
+			// the version must not change under the checker: quiesce first.
+			r.Wait()
+			if err := r.DB.CheckLevels(nil); err != nil {
+				return fmt.Errorf("after step %d %s: DB.CheckLevels: %v", i, s.String(), err)
+			}
+			if err := checkVersionIndependent(r); err != nil {
+				return fmt.Errorf("after step %d %s: %v", i, s.String(), err)
+			}
+		}
+	}
 	return r.health()
+}
+
+// sampleLSM records LSM-shape facts for the non-triviality rules.
+func (r *Runner) sampleLSM() {
+	if r.DB == nil {
+		return
+	}
+	m := r.DB.Metrics()
+	levels, virt := 0, false
+	for i := range m.Levels {
+		if m.Levels[i].Tables.Count > 0 {
+			levels++
+		}
+		if m.Levels[i].VirtualTables.Count > 0 {
+			virt = true
+		}
+	}
+	if levels > r.C["max-nonempty-levels"] {
+		r.C["max-nonempty-levels"] = levels
+	}
+	if int(m.Levels[0].Sublevels) > r.C["max-l0-sublevels"] {
+		r.C["max-l0-sublevels"] = int(m.Levels[0].Sublevels)
+	}
+	if virt {
+		r.L["virtual-tables"] = true
+	}
+	if m.BlobFiles.Live.Total().Count > 0 {
+		r.L["blob-files-live"] = true
+	}
+	if m.Table.Physical.Zombie.Total().Count > 0 {
+		r.L["zombie-tables"] = true
+	}
 }
 
 // health reports asynchronous problems.
 func (r *Runner) health() error {
+	r.sampleLSM() // must not hold Ev.mu: Metrics() waits for the manifest lock
 	r.Ev.mu.Lock()
 	defer r.Ev.mu.Unlock()
 	if len(r.Ev.BGErrors) > 0 {
